@@ -483,7 +483,7 @@ spec fn same_record(a: Record, b: Record) -> bool { a.typ == b.typ && (a.cont is
                 assert(s@ + Seq::<char>::empty() =~= s@);
             }
         }
-//@@ before /high_byte [^;=]{0,2}= /
+//@@ before /r\.data = &r\.data\[1\.\.\];/
                 proof { assert(r.data@ == f1[1]); }
 //@@ before /\} else \{/
                 proof {
